@@ -30,4 +30,11 @@ CLAIMED = {
          "completed epoch), nfails bookkeeping, the lower bound after every projected step for all three optimizers, L-BFGS-B not worse under the service contract, and reusability "
          "(a solve on a used object equals a solve on a fresh one). Semi-stratified 'zeros' are unchecked by design: recorded known finding, theorem _partial",
          _NOTE + "; objective/gradient estimates, sqrt, floor/ceil and the SciPy optimiser enter as oracles/services with stated contracts that the harness checks on recorded calls", "DESIGN.md 7 (C13)"),
+ "C12": ("translator (Python AST -> deep-embedded Lean expressions, regenerated on every run) + verified symbolic differentiator + HasDerivAt theorems over the reals; Lean model of fg.evaluate / fg_est.estimate with exact correspondence",
+         "the ten built-in loss/gradient pairs and the objective table are re-read from handles.py / fg_setup.py on every run and re-proved: each gradient is the derivative of its loss on the "
+         "domain given by the table's lower bound (Huber incl. the kink), the table pairs every objective with its own functions; the tensor-level objective is the weighted sum of the loss, "
+         "the returned mode gradients are the exact partial derivatives for models with arbitrary weights (chain rule over the Kruskal sum, all N), all modes at once equals one mode at a time, "
+         "and the full-sample unit-weight estimator equals the exact evaluation. A change of a handle that is not an algebraically equal rewrite breaks the proof; the check then searches a grid "
+         "over the domain for a point where gradient and derivative differ and reports it",
+         _NOTE + "; the translator's reading of the accepted AST subset is trusted and cross-checked numerically against the Python handles on every run; mttkrps is modelled by its defining sum (its kernels are C02)", "DESIGN.md 7 (C12)"),
 }
